@@ -437,7 +437,7 @@ def rust_arg(a, b, nm):
         d = nm.i(sym('arg.type.disc', BV64))
         return f"crate::ExchangeType::{XV[d]}" + (f"({rs_str(nm.s(sym('arg.type.custom', StrSort)))}.to_string())" if XV[d] == 'Custom' else '')
     if k == 'XREF':
-        return f"&crate::Exchange::new(&other, {rs_str(nm.s(b.h[a[1] + '.name']))}.to_string())"
+        return f"&crate::Exchange::new(other_ref, {rs_str(nm.s(b.h[a[1] + '.name']))}.to_string())"
     if k == 'CH':
         return '&ch'
     if k == 'DEL':
@@ -526,6 +526,7 @@ fn verif_replay_c12() {{
     let _ = tx.send(Err(crate::Error::ClientException));
     let _ = _otx.send(Err(crate::Error::ClientException));
     drop(tx); drop(_otx);   // a second, unexpected wait for a reply fails instead of blocking
+    let other_ref = &other;
     let r = std::panic::catch_unwind(std::panic::AssertUnwindSafe(move || {{ {{ {pre} let _ = {call}; }} {forget_ch}}}));
     let got = raw_of(&rx);
     let want: Vec<Vec<u8>> = if {'true' if want_nothing else 'false'} {{ vec![] }} else {{ vec![enc(&{want_frame})] }};
